@@ -28,6 +28,14 @@ CHECKS = {
             "closure BFS of Cross/CrossAbove/CrossUnder (+ swapped series, binary()) over all pairs of 6 values incl. both zeros and the smallest subnormal; closure BFS of the three reversal detectors for (left,right) in {1,2}^2 (+{1,2,3} thorough) over a 3-symbol alphabet, running through the whole range of the position counter; deviation-bounded streams of 600 steps for boundary (quick) / ~12 000 (thorough) (left,right) pairs",
             "The crossing detectors' state is the last difference, the reversal detectors' state a bounded window plus counters, so the product space closes and the verdict holds for streams of every length over the alphabet, including far beyond PeriodType::MAX.",
             "Trusted: the definitional oracles; reversal definition stated for the prescribed use (first input = construction value)."),
+    "C15": ("DESIGN.md §6 C15",
+            "product exploration of related runs of the real MA instances (x and a*x+b for 8 affine maps; x, y and x+y) to depth 5-8 over exact and rounding-active alphabets and deviation-bounded for every length; impulse response of every linear kind for every length 1..=254 against the documented weight profile",
+            "Algebraic laws relate different runs of the same code, so they are checked on every explored stream at once: affine equivariance and hull containment on every transition of the product, superposition on every pair of streams, and the impulse response (which determines a linear filter on all inputs) for all lengths.",
+            "Trusted: radii from the reference models of C02/C03, the closed-form weight profiles. Conv and VWMA are covered by C02's definitional check (their laws follow from it within the radius)."),
+    "C17": ("DESIGN.md §6 C17",
+            "closure BFS of CollapseTimeframe (periods 1..=5, 5 candles), depth-bounded batch-vs-stream-vs-sliding comparison, deviation-bounded periods up to 300; depth-bounded exploration of Renko over a STATE-DEPENDENT alphabet (price exactly on / one ulp inside / outside the next boundary read from the instance, mid-brick, 1.5/2/3.5-brick jumps, reversals) for 4 brick sizes x 3 sources; HeikinAshi validity over valid candles",
+            "Boundary hits are enumerated rather than hoped for: the alphabet is computed from the thresholds the instance currently holds, so the truncation at an exact boundary, multi-brick jumps and reversals are all reached at every depth; the brick sequence, its volume and the iterator protocol are checked on every transition.",
+            "Trusted: the aggregation model; the Renko thresholds are read through Serialize (stable API). RenkoOutput's OHLCV close (absolute step) is not judged."),
     "C16": ("DESIGN.md §6 C16",
             "total enumeration: all 513 actions, all 263 169 pairs, all 1.35e8 triples, all i8, all 2^32 f32 bit patterns (thorough; 2^20 + break-point neighbourhoods quick), dense f64 neighbourhoods, against an integer signed-strength model",
             "The domain is finite, so the algebraic laws (conversion totality/sign/monotonicity/saturation, ratio range and round trip, negation involution, saturated subtraction, equality an equivalence, ordering vs equality) are decided on every element, pair and triple; float conversion is decided on every f32 in the thorough tier.",
